@@ -20,6 +20,8 @@ SeqRequests ==
         f \in {"cP", "cU", "pQ"}, t \in {"cU", "pR", "pN"}, u \in {NA, "false"}} \cup
     {[S EXCEPT !.route = "add", !.body = "mp", !.pin = p, !.name = n, !.onlyhash = oh] :
         p \in {NA, "false"}, n \in {NA, "n1"}, oh \in {NA, "true"}} \cup
+    {[S EXCEPT !.route = "add", !.body = "mp", !.pin = p, !.fault = f] : p \in {NA, "false"}, f \in {"pin", "put1"}} \cup
+    {[S EXCEPT !.route = "repo/gc", !.streamerr = "true", !.gcerr = "2"]} \cup
     {[S EXCEPT !.route = "pin/add", !.style = "slash", !.arg = "cU", !.enc = "both"],
      [S EXCEPT !.route = "pin/rm", !.style = "query", !.arg = "cP", !.enc = "slash"],
      [S EXCEPT !.route = "pin/update", !.style = "query", !.arg = "cP", !.arg2 = "pR", !.enc = "letter"],
